@@ -1,8 +1,10 @@
 // C01: the interpolant reproduces the loaded model values at every loaded point, for all value arrays.
 // args: <grid spec> <script> [param]
 // scripts: load | reload | refine (param: classic|parents|direction|fds|stable|aniso|surplus) | construct (param: batch size) | construct1
+//          reupdate: load, updateGrid with the anisotropic weights reversed (the new selection is not a superset of the old one), load, updateGrid(depth+1, original weights), load
 //          mixed (param: batch size): load, refinement left pending, construction, finish, load whatever is needed, refine, load
 #include "tgrid.hpp"
+#include <algorithm>
 
 static void check_reproduction(const TasmanianSparseGrid &grid, SymModel &model, const char *stage){
   int d = grid.getNumDimensions(), n = grid.getNumLoaded(), outs = grid.getNumOutputs();
@@ -36,7 +38,7 @@ int main(int argc, char **argv){
     if (grid.isLocalPolynomial() || grid.isWavelet()) grid.setSurplusRefinement(tol, refine_classic, -1, g.ll);
     else if (grid.isFourier() || round % 2 == 0 || !OneDimensionalMeta::isSequence(grid.getRule())) grid.setAnisotropicRefinement(type_iptotal, 1 + round, 0, g.ll);
     else grid.setSurplusRefinement(tol, 0, g.ll); };
-  if (script == "load" || script == "reload" || script == "refine" || script == "mixed"){
+  if (script == "load" || script == "reload" || script == "refine" || script == "mixed" || script == "reupdate"){
     grid.loadNeededValues(model.values(grid.getNeededPoints(), d));
     check_reproduction(grid, model, "after load");
   }
@@ -59,6 +61,16 @@ int main(int argc, char **argv){
       if (grid.getNumNeeded() == 0) break;
       grid.loadNeededValues(model.values(grid.getNeededPoints(), d));
       check_reproduction(grid, model, round == 0 ? "after refine+load" : "after second refine+load");
+    }
+  }
+  if (script == "reupdate" && !(grid.isLocalPolynomial() || grid.isWavelet())){
+    std::vector<int> w = g.aw; if (w.empty()){ for (int j=0;j<d;j++) w.push_back(1 + (j % 2)); if (g.type.find("curved") != std::string::npos) for (int j=0;j<d;j++) w.push_back(0); }
+    std::vector<int> rev = w; std::reverse(rev.begin(), rev.begin() + d);
+    for (int round=0; round<2; round++){
+      grid.updateGrid(g.depth + round, IO::getDepthTypeString(g.type), round == 0 ? rev : w, g.ll);
+      fpsym_note(round == 0 ? "needed_after_reversed_update" : "needed_after_second_update", grid.getNumNeeded());
+      if (grid.getNumNeeded() > 0) grid.loadNeededValues(model.values(grid.getNeededPoints(), d));
+      check_reproduction(grid, model, round == 0 ? "after an update with reversed anisotropic weights + load" : "after a second update (depth+1, original weights) + load");
     }
   }
   if (script == "mixed"){ refine_once(fpsym_symbolic(0.05, 5, 0.0, 0.6), 0); fpsym_note("pending_before_construction", grid.getNumNeeded()); }   // left pending
